@@ -490,12 +490,15 @@ def run(ctx, table, jobs):
     return len(kinds["gallery"]) + len(stacks)
 
 
+_REPLAY = {}
+
+
 def replay(ctx, table, case):
     """re-execute one stored case (needs the tableau / class table of the spec: a small TLC run)"""
-    jobs = start_tlc(ctx)
-    kinds = collect_tlc(ctx, jobs)
-    tab = Tableau(kinds["tableau"][0])
-    rows = rows_of(kinds["classtable"][0])
+    if _REPLAY.get("ctx") is not ctx:
+        kinds = collect_tlc(ctx, start_tlc(ctx))
+        _REPLAY.update(ctx=ctx, tab=Tableau(kinds["tableau"][0]), rows=rows_of(kinds["classtable"][0]))
+    tab, rows = _REPLAY["tab"], _REPLAY["rows"]
     if case.get("kind") == "gallery":
         if case.get("posterior"):
             # one posterior kind at one point
